@@ -66,7 +66,11 @@ pub fn litmus() -> &'static Vec<(String, String, Vec<String>)> {
 pub fn generated() -> &'static Vec<(String, String, Vec<String>)> {
     use std::sync::OnceLock;
     static L: OnceLock<Vec<(String, String, Vec<String>)>> = OnceLock::new();
-    L.get_or_init(|| parse_expectations(include_str!("../../../../corpus/c16/generated.json")))
+    L.get_or_init(|| {
+        let mut v = parse_expectations(include_str!("../../../../corpus/c16/generated.json"));
+        v.extend(parse_expectations(include_str!("../../../../corpus/c16/generated2.json")));
+        v
+    })
 }
 
 /// The kernel instantiations that the litmus file contains expectations for.
@@ -338,7 +342,7 @@ pub const PROP: Prop = Prop {
     generate,
     execute,
     shrink,
-    rule: "one run = (7 of 10) one program (one of 29 hand-written litmus programs or of 1493 grammar-generated promise / async / async-generator programs — 2..5 racing tasks built from then/catch/finally chains, thenables, nested resolution, combinators, async functions, for-await, async generators driven by queued next/return/throw, yield*, promise subclasses, deferred settlement — each with its committed expected trace, or 1..3 promise/async kernels plus optionally a synchronous one, as one evaluation or split across evaluations with the same drain points) executed synchronously on the real SimpleJobExecutor and under 4 (quick) / 8 (thorough) seeded host schedules: evaluate_async_with_budget with budgets from the Fibonacci grid 1..2^20 or uniform 1..400, polled by the simulator with collections at seeded yields, followed by run_jobs_async polled the same way; or the stub FIFO executor with seeded batch boundaries (0..6 jobs per run_jobs call, called until empty); or (3 of 10) a budget sweep: a synchronous kernel composition or a harvested test group evaluated under 5 (quick) / 10 (thorough) budgets drawn from 1..64 and the Fibonacci grid, each compared with the synchronous evaluation; non-trivial = at least one yield, collection or batch split happened; distinct = distinct (program, schedule list, yields, batch splits)",
+    rule: "one run = (7 of 10) one program (one of 29 hand-written litmus programs or of 2493 grammar-generated promise / async / async-generator programs — 2..5 racing tasks built from then/catch/finally chains, thenables (eager, lazy, late, double-settling, throwing, nested), nested resolution, combinators, async functions, for-await with break / continue / throw / return over async generators, custom async and sync iterators, async generators with awaiting / yielding / returning finally blocks driven by queued next/return/throw, yield* over arrays, generators and custom iterators, promise subclasses and own `then` / `constructor` overrides, deferred settlement — each with its committed expected trace, or 1..3 promise/async kernels plus optionally a synchronous one, as one evaluation or split across evaluations with the same drain points) executed synchronously on the real SimpleJobExecutor and under 4 (quick) / 8 (thorough) seeded host schedules: evaluate_async_with_budget with budgets from the Fibonacci grid 1..2^20 or uniform 1..400, polled by the simulator with collections at seeded yields, followed by run_jobs_async polled the same way; or the stub FIFO executor with seeded batch boundaries (0..6 jobs per run_jobs call, called until empty); or (3 of 10) a budget sweep: a synchronous kernel composition or a harvested test group evaluated under 5 (quick) / 10 (thorough) budgets drawn from 1..64 and the Fibonacci grid, each compared with the synchronous evaluation; non-trivial = at least one yield, collection or batch split happened; distinct = distinct (program, schedule list, yields, batch splits)",
     real: &["lexer/parser/compiler/VM incl. the budgeted dispatch table", "promise machinery, async functions/generators", "SimpleJobExecutor (behind the Recording shim) in the synchronous and budgeted schedules"],
     stub: &["SimExecutor (host side of the JobExecutor seam: FIFO, scripted batch boundaries)", "Recording shim (re-boxes promise jobs to log enqueue/run)", "SimClock, SimHooks, print native"],
     assumptions: &[
